@@ -63,7 +63,8 @@ def main():
     fails, n, nontrivial = [], 0, 0
     for mech, u, pw, salt, it in cases(a.tier, a.seed):
         for tamper in (None, "nonce-prefix", "salt", "iterations", "signature", "signature-last-bit", "signature-truncated",
-                       "signature-one-byte", "signature-empty", "signature-extended", "no-signature", "wrong-password"):
+                       "signature-one-byte", "signature-empty", "signature-extended", "no-signature", "empty-final-message",
+                       "wrong-password"):
             n += 1
             srv_pw = pw + "!" if tamper == "wrong-password" else pw
             srv = Server(mech, {u: srv_pw}, salt, it, tamper=None if tamper == "wrong-password" else tamper)
@@ -87,7 +88,7 @@ def main():
             break
     emit({"name": "scram-exchange-vs-rfc5802-server", "exhaustive": False, "cases": n, "distinct_nontrivial": nontrivial,
           "bound": "usernames: every string of length <= %d over {a , = e-acute} plus escapes; both mechanisms; salts of 1/16/64 "
-                   "bytes; iteration counts incl. 1 and %d; honest server, 10 single-field tamperings (incl. truncated / empty / extended signature), wrong password; seed %d"
+                   "bytes; iteration counts incl. 1 and %d; honest server, 11 single-field tamperings (incl. truncated / empty / extended signature), wrong password; seed %d"
                    % (3 if a.tier == "quick" else 4, 4096 if a.tier == "quick" else 20000, a.seed),
           "failures": fails, "replay": {"script": REPLAY}})
     n, fails = login_sequences(a.tier, a.seed)
@@ -96,6 +97,12 @@ def main():
                    "salt and iteration count, each against a server that knows the old or the new password; both mechanisms, "
                    "usernames with and without escapes; seed %d" % a.seed,
           "failures": fails, "replay": {"script": REPLAY_SEQ % a.seed}})
+    n, fails = handshakes(a.tier, a.seed)
+    emit({"name": "sasl-handshake-vs-rfc5802-server", "exhaustive": False, "cases": n, "distinct_nontrivial": n,
+          "bound": "the real AIOKafkaConnection._do_sasl_handshake (send / _send_sasl_token answered by the RFC 5802 server): both "
+                   "SCRAM mechanisms, both framings (SaslAuthenticate v1 handshake / bare tokens), usernames with and without "
+                   "escapes, honest server and 8 ways of not knowing the password (incl. an empty final message); seed %d" % a.seed,
+          "failures": fails, "replay": {"script": REPLAY_HS % a.seed}})
 
 
 def login_sequences(tier, seed):
@@ -127,6 +134,78 @@ def login_sequences(tier, seed):
                                 return n, fails
     return n, fails
 
+
+def handshake(mech, user, password, server, api_version):
+    """The real AIOKafkaConnection._do_sasl_handshake; its send / _send_sasl_token are answered by `server`.
+    -> 'completed' | 'aborted:<exc>'"""
+    import asyncio
+    from types import SimpleNamespace
+    from aiokafka.conn import AIOKafkaConnection
+    from aiokafka.protocol.admin import SaslHandShakeRequest, SaslAuthenticateRequest
+
+    async def run():
+        conn = AIOKafkaConnection("h", 9092, security_protocol="SASL_PLAINTEXT", sasl_mechanism=mech,
+                                  sasl_plain_username=user, sasl_plain_password=password)
+        rounds = [0]
+
+        def answer(msg):
+            rounds[0] += 1
+            return server.first(msg) if rounds[0] == 1 else server.final(msg)
+
+        async def send(request):
+            if isinstance(request, SaslHandShakeRequest):
+                return SimpleNamespace(API_VERSION=api_version, error_code=0, enabled_mechanisms=[mech])
+            assert isinstance(request, SaslAuthenticateRequest)
+            return SimpleNamespace(API_VERSION=0, error_code=0, error_message=None, sasl_auth_bytes=answer(request._payload))
+
+        async def token(payload, expect_response=True):
+            return answer(payload)
+
+        conn.send = send
+        conn._send_sasl_token = token
+        conn.close = lambda *a, **k: None
+        await conn._do_sasl_handshake()
+
+    try:
+        asyncio.run(run())
+        return "completed"
+    except ProtocolError as e:
+        return "aborted:server-rejected:%s" % e
+    except Exception as e:
+        return "aborted:%s: %s" % (type(e).__name__, e)
+
+
+def handshakes(tier, seed):
+    """'never completes authentication with a server that does not know the password', one level up: the whole SASL
+    exchange as the connection drives it, over both framings (SaslAuthenticate requests / bare tokens of pre-1.0 brokers)."""
+    rnd = random.Random(seed)
+    fails, n = [], 0
+    for mech in ("SCRAM-SHA-256", "SCRAM-SHA-512"):
+        for user in ("user", "a,b=c"):
+            for api_version in (0, 1):
+                for tamper in (None, "nonce-prefix", "salt", "signature", "signature-truncated", "signature-empty", "no-signature",
+                               "empty-final-message", "wrong-password"):
+                    n += 1
+                    salt = bytes(rnd.randrange(256) for _ in range(16))
+                    pw = "secret"
+                    srv = Server(mech, {user: pw + "!" if tamper == "wrong-password" else pw}, salt, rnd.choice([1, 4096]),
+                                 tamper=None if tamper == "wrong-password" else tamper)
+                    out = handshake(mech, user, pw, srv, api_version)
+                    ok = (out == "completed" and srv.accepted) if tamper is None else out.startswith("aborted")
+                    if not ok:
+                        fails.append({"mechanism": mech, "user": user, "handshake_api_version": api_version, "tamper": tamper,
+                                      "outcome": out, "server_accepted": srv.accepted})
+    return n, fails
+
+
+REPLAY_HS = '''
+import sys, logging
+logging.disable(logging.CRITICAL)
+sys.path.insert(0, "/verif")
+from bounded import C18
+n, fails = C18.handshakes("quick", %d)
+VIOLATED = bool(fails); DETAIL = "%%d of %%d SASL handshakes ended wrongly; first: %%r" %% (len(fails), n, fails[:1])
+'''
 
 REPLAY_SEQ = '''
 import sys, logging
